@@ -77,18 +77,15 @@ theorem unprotectWire_other (c : Ctx) (m : WireMsg) (hr : codeIsResponse m.code 
     (h : m.piv = none ∨ codeStyleOk m.code = false) :
     (unprotectWire c m).1 = c ∧ (unprotectWire c m).2 ≠ .plain .accepted := by
   unfold unprotectWire
-  cases hp : m.piv with
-  | none => simp [hr]
-  | some n =>
-    have hs : codeStyleOk m.code = false := by
+  cases hs : codeStyleOk m.code with
+  | false => simp [hr]
+  | true =>
+    cases hp : m.piv with
+    | none => simp [hr]
+    | some n =>
       rcases h with h | h
       · rw [hp] at h; cases h
-      · exact h
-    obtain ⟨size, win, er⟩ := c
-    simp only [hr, hs]
-    cases win with
-    | none => cases er <;> simp
-    | some w => cases hv : w.isValid n <;> cases er <;> simp [hv]
+      · rw [hs] at h; cases h
 
 /-- the classification is exhaustive and exact -/
 theorem unprotectWire_classify (c : Ctx) (m : WireMsg) :
